@@ -125,11 +125,16 @@ func NilReturnsNotGuarded(ds *Describer, fn *ssa.Function, errIdx int, guard Gua
 		if errIdx >= len(ret.Results) {
 			continue
 		}
-		if !MayBeNilErr(ds, fn, ret.Results[errIdx], ret) {
-			continue
-		}
-		if w := Unguarded(ds, fn, nil, func(in ssa.Instruction) bool { return in == ssa.Instruction(ret) }, guard); w != nil {
-			out[ret] = w
+		for _, lf := range PhiLeaves(ret.Results[errIdx], ret) {
+			if prm, ok := lf.V.(*ssa.Parameter); ok && IsErrorType(prm.Type()) {
+				continue // the caller's (non-nil) error handed back unchanged
+			}
+			if !mayBeNilLeaf(ds, fn, lf, 0) {
+				continue
+			}
+			if w := UnguardedLeaf(ds, fn, nil, lf, guard); w != nil {
+				out[ret] = w
+			}
 		}
 	}
 	return out
@@ -211,17 +216,7 @@ func MaybeNilDerefs(ds *Describer, fn *ssa.Function) []NilDeref {
 						continue
 					}
 					guard := NonNilGuard(ds, phi)
-					est := map[*ssa.BasicBlock]int{}
-					for _, bb := range fn.Blocks {
-						if len(bb.Instrs) == 0 {
-							continue
-						}
-						if ifi, ok := bb.Instrs[len(bb.Instrs)-1].(*ssa.If); ok {
-							if s := guard(DecodeCond(ds, ifi)); s >= 0 {
-								est[bb] = s
-							}
-						}
-					}
+					est := GuardEdges(ds, fn, guard)
 					// search from the phi's block (entered from the nil edge) to the use
 					q := PathQuery{Fn: fn, From: phi, Target: func(x ssa.Instruction) bool { return x == use }, Edge: func(bb *ssa.BasicBlock, succ int) bool {
 						if s, ok := est[bb]; ok && s == succ {
